@@ -236,9 +236,10 @@ func (f *Font) makeTemplateData(opt *WriterOptions) *fontInfo {
 	creationDate := f.CreationDate
 	if !creationDate.IsZero() {
 		// Zones without a proper abbreviation are formatted in a way which
-		// cannot be read back.  Use UTC in this case.
-		_, err := time.Parse(creationDateFormat, creationDate.Format(creationDateFormat))
-		if err != nil {
+		// cannot be read back, or which reads back as a different instant
+		// (a zone named "UTC" with a non-zero offset).  Use UTC in this case.
+		back, err := time.Parse(creationDateFormat, creationDate.Format(creationDateFormat))
+		if err != nil || back.Unix() != creationDate.Unix() {
 			creationDate = creationDate.UTC()
 		}
 	}
